@@ -11,7 +11,8 @@ THEOREMS = [
     "encodeLoop_is_chunks", "roundtrip_update", "roundtrip_open", "roundtrip_small", "roundtrip_keepalive",
     "roundtrip_refresh", "roundtrip_notification", "as4_roundtrip", "decode_encode_fixed_point",
     "decode_encode_fixed_point_frame", "as4_roundtrip_full_false", "check_run_full_false", "witness_nexthop",
-    "witness_confed_tail", "dom_examples_multiframe", "two_octet_peer_example", "flowspec_len_roundtrip", "flowspec_nlri_framed", "flowspec_len_4096", "repaired_dropped", "repaired_refused", "repaired_open", "repaired_partial", "repaired_confed",
+    "witness_confed_tail", "dom_examples_multiframe", "two_octet_peer_example", "flowspec_len_roundtrip", "flowspec_nlri_framed", "flowspec_len_4096", "two_octet_attributes_roundtrip",
+    "two_octet_attribute_block", "repaired_dropped", "repaired_refused", "repaired_open", "repaired_partial", "repaired_confed",
     "repaired_notification",
 ]
 
@@ -19,8 +20,13 @@ THEOREM_BACKED = ["OPEN + all capability kinds (block <= 253 bytes)", "NOTIFICAT
                   "End-of-RIB (any negotiated family)",
                   "UPDATE Unreach IPv4/IPv6 unicast+multicast: legacy and MP_UNREACH_NLRI, add-path on/off, both frame limits, any "
                   "encodable input (no further size side condition)",
-                  "UPDATE Reach IPv4/IPv6 unicast+multicast on 4-octet-AS sessions: legacy (NEXT_HOP) and MP_REACH_NLRI "
-                  "(IPv6 / link-local / RFC 8950 next hop), all attribute kinds of Attribute::decode, add-path on/off",
+                  "UPDATE Reach IPv4/IPv6 unicast+multicast: legacy (NEXT_HOP) and MP_REACH_NLRI "
+                  "(IPv6 / link-local / RFC 8950 next hop), all attribute kinds of Attribute::decode, add-path on/off, on "
+                  "4-octet-AS sessions AND towards 2-octet-AS peers (whole messages: AS_PATH / AGGREGATOR down-conversion, "
+                  "AS4_PATH / AS4_AGGREGATOR, the peer's attribute loop + reconcile_as4, splitting, fixed point: master theorem; "
+                  "two_octet_attributes_roundtrip, two_octet_attribute_block) - with the two RFC 6793 protocol limits as explicit "
+                  "hypotheses (Carriable / carriableB: a confederation segment that is not leading, a wide AS inside a confederation "
+                  "segment; witness_confed_tail, known findings F4e3 / F4e4)",
                   "AS_PATH 2-byte downgrade + AS4_PATH + reconciliation incl. leading confederation segments (as4_roundtrip, function "
                   "level, exact condition = what RFC 6793 can carry)",
                   "PeerCodec::negotiate vs the RFC reading of simple capability sets (negotiate_agrees; also re-checked by the "
@@ -40,9 +46,7 @@ HYPOTHESIS_BACKED = ["NLRI encoders/decoders of VPNv4/v6, labeled-unicast v4/v6,
                      "254..257, 4094, 4095 and 4096 octets are generated every run (the rule's components stay impl-only). "
                      "Whether such an NLRI is encodable at all is decided from the INPUT (Codec.hasWireForm: label-stack bits "
                      "<= 255), not by the probe: a refused valid NLRI is the failure `valid-entry-refused`; corpus "
-                     "seed-families-embedded-probes.case pins the wire bytes of every family",
-                     "UPDATE Reach towards a 2-byte-AS peer (AS_PATH/AGGREGATOR downgrade inside a whole message): modelled and "
-                     "compared on every case, not covered by the master theorem (only by as4_roundtrip)"]
+                     "seed-families-embedded-probes.case pins the wire bytes of every family"]
 
 CONFIG = dict(
     level_text="Kernel-checked Lean theorems about a hand-written model of the BGP encoder (PeerCodec::negotiate, encode_to / "
@@ -63,9 +67,10 @@ CONFIG = dict(
     level_note="Trusted: Lean kernel; axioms propext/Classical.choice/Quot.sound; the hand-written model and reader (checked "
                "only by the correspondence stream); harness glue (case construction incl. attributes obtained through the real "
                "decoder, rendering). Master-theorem domain = buildable+encodable messages; UPDATEs of IPv4/IPv6 "
-               "unicast/multicast (incl. multi-frame ones, kernel-evaluated examples dom_examples_multiframe); announcements only on "
-               "4-octet-AS sessions (2-octet-AS whole messages: correspondence + the kernel-evaluated two_octet_peer_example) and "
-               "without the padded IPv4 next hop inside MP_REACH (F4d; IPv4 multicast with its as-is IPv4 next hop is inside). Modelled, not verified: 2-byte-AS announcements as whole messages, the families "
+               "unicast/multicast (incl. multi-frame ones, kernel-evaluated examples dom_examples_multiframe); announcements on "
+               "4-octet-AS sessions and towards 2-octet-AS peers (there: AS_PATH within what RFC 6793 can carry; example "
+               "two_octet_peer_example), "
+               "without the padded IPv4 next hop inside MP_REACH (F4d; IPv4 multicast with its as-is IPv4 next hop is inside). Modelled, not verified: the families "
                "outside the model (probe-parameterised, impl-only oracle), BytesMut growth, non-ASCII FQDN, Family reserved octet.",
     lean_modules=["Rbgp.Enc.Props"],
     theorems=["Rbgp.Enc.Props." + t for t in THEOREMS],
@@ -99,8 +104,8 @@ CONFIG = dict(
                   "fits a frame of its own by the RFC wire sizes, capability block within its one-octet lengths, every NLRI has a "
                   "wire form) decides whether a refusal (Err) is the required or a forbidden outcome; canonicalisation = "
                   "extended-length flag, FQDN lower-casing, NOTIFICATION data cut to the negotiated maximum"],
-    modelled_not_verified=["announcements towards a 2-byte-AS peer as whole messages (model + correspondence; theorem only for the "
-                           "AS_PATH transformation)", "families outside the model (hypothesis-backed, see assumptions)",
+    modelled_not_verified=["announcements towards a 2-octet-AS peer whose AS_PATH hits an RFC 6793 limit (confederation segment not "
+                           "leading / wide AS inside one): model + correspondence, outside the theorem by hypothesis", "families outside the model (hypothesis-backed, see assumptions)",
                            "BytesMut growth/reserve, the tokio Framed adapter",
                            "daemon/src/event/mod.rs flush_tx (Err => log + skip the message, sync_tx counting, the txbuf flush "
                            "threshold) and PendingTx::drain_messages (grouping prefixes into messages): daemon code that no C04 "
